@@ -82,6 +82,13 @@ extern "C"
 
     void channel_release(struct channel* self);
 
+    /// @brief Empties the channel and forgets its readers.
+    /// Anything written before this call will not be delivered to any reader.
+    /// Readers must be re-initialized (zeroed) by their owners; they register
+    /// again with their next read.
+    /// Must not be called while a writer or a reader is using the channel.
+    void channel_reset(struct channel* self);
+
     void* channel_write_map(struct channel* self, size_t nbytes);
 
     void channel_write_unmap(struct channel* self);
